@@ -530,11 +530,15 @@ theorem ldist2_eq_zero_iff (c : LCfg) (hw : c.WF) (p q : P2) (hp : oob c p = fal
     have e1 : p.1 = q.1 := by
       rcases hx.mp h1 with e | ⟨_, e⟩
       · exact e
-      · unfold iabs LCfg.width at e; split at e <;> omega
+      · have hlt : iabs (p.1 - q.1) < c.width := by unfold iabs LCfg.width; split <;> omega
+        rw [Int.emod_eq_of_lt (iabs_nonneg _) hlt] at e
+        unfold iabs at e; split at e <;> omega
     have e2 : p.2 = q.2 := by
       rcases hy.mp h2 with e | ⟨_, e⟩
       · exact e
-      · unfold iabs LCfg.height at e; split at e <;> omega
+      · have hlt : iabs (p.2 - q.2) < c.height := by unfold iabs LCfg.height; split <;> omega
+        rw [Int.emod_eq_of_lt (iabs_nonneg _) hlt] at e
+        unfold iabs at e; split at e <;> omega
     exact Prod.ext e1 e2
   · rintro rfl
     rw [hx.mpr (Or.inl rfl), hy.mpr (Or.inl rfl)]; rfl
